@@ -178,12 +178,12 @@ def call(cx, layout, path, prefix, name, wf, wf2, im=False, **kw):
         return S.read_sfcf(path, prefix, name, **args)
 
 
-def expected(V, prefix, reps, cfgs, name, wf, wf2, T, im=False):
+def expected(V, prefix, reps, cfgs, name, wf, wf2, T, im=False, ens_name=None):
     """list over timeslices of samples dicts"""
     nt = 1 if CORRS[name][0] == 'bb' else T
     out = []
     for t in range(nt):
-        out.append({'%s_|%s' % (prefix, rep): {c: V[(rep, c, name, wf, 0 if wf2 is None else wf2, t)][1 if im else 0] for c in cl} for rep, cl in zip(reps, cfgs)})
+        out.append({('%s|%s' % (ens_name, rep) if ens_name else '%s_|%s' % (prefix, rep)): {c: V[(rep, c, name, wf, 0 if wf2 is None else wf2, t)][1 if im else 0] for c in cl} for rep, cl in zip(reps, cfgs)})
     return out
 
 
@@ -199,13 +199,15 @@ def compare(cx, res, exp, label):
     return ok
 
 
-def h_read(cx, layout, reps, cfgs, T=2, names=('f_A', 'f_1'), req=('f_A', 0, None), perm=0, im=False, files=None):
+def h_read(cx, layout, reps, cfgs, T=2, names=('f_A', 'f_1'), req=('f_A', 0, None), perm=0, im=False, files=None, ens_name=None):
     """C17: every stored number ends up at its configuration / replica / timeslice, independent of the listing order"""
     prefix = {'c': 'data_c', 'o': 'test', 'a': 'data_a'}[layout]
     tree, V, tk = build(cx, layout, prefix, reps, cfgs, T, list(names))
     path = install(cx, tree, tk, perm)
     name, wf, wf2 = req
     kw = {}
+    if ens_name:
+        kw['ens_name'] = ens_name         # chains are then named <ens_name>|<replica part of the file / directory name>
     sel = [list(c) for c in cfgs]
     if files is not None:
         # explicit selection of configurations (every second one, replica by replica)
@@ -223,7 +225,7 @@ def h_read(cx, layout, reps, cfgs, T=2, names=('f_A', 'f_1'), req=('f_A', 0, Non
         except Exception as e:
             cx.fail('reader raised on a well-formed file set', '%s: %s' % (type(e).__name__, e))
             return
-        compare(cx, res, expected(V, prefix, reps, sel, name, wf, wf2, T, im), '%s:%s' % (layout, name))
+        compare(cx, res, expected(V, prefix, reps, sel, name, wf, wf2, T, im, ens_name=ens_name), '%s:%s' % (layout, name))
     finally:
         cleanup(cx)
 
